@@ -45,6 +45,19 @@ def error_sites(body):
     return out
 
 
+def with_const_tables(F, body, depth=0):
+    """nodes of a body and of the (associated) constants it reads: a table of rule functions kept in a `const`
+    belongs to the function that runs it"""
+    seen = set()
+    for n in walk(body):
+        yield n
+        if n.get("k") == "def" and n.get("dk") in ("const", "assoc_const") and n.get("def") not in seen and depth < 2:
+            seen.add(n.get("def"))
+            cb = F.body_by_path.get(n.get("def"))
+            if cb is not None and "body" in cb:
+                yield from with_const_tables(F, cb["body"], depth + 1)
+
+
 def v1(rep, F):
     r = rep.rule("V1", "every private validate_* rule function of an impl MTnnn is called exactly once from "
                        "that type's validate_network_rules, and nothing else is", floor=78)
@@ -64,7 +77,7 @@ def v1(rep, F):
         # validate_instance etc. (pub, Result-returning) are not network rule functions
         rules = [b for b in rules if "SwiftValidationError" in (b.get("output") or "")]
         calls = {}
-        for n in walk(main["body"]):
+        for n in with_const_tables(F, main["body"]):
             if n.get("k") in ("call", "mcall"):
                 c = callee(n)
                 calls[c] = calls.get(c, 0) + 1
@@ -462,6 +475,23 @@ def s1_fn(rep, F, b, r, depth=0, seen=None):
                 rep.add(Finding("S4", b["path"], "mut-borrow",
                                 "%s lends its accumulated error list mutably at line %s (not an append the rule "
                                 "can follow)" % (b["name"], n.get("ln")), b["file"], n.get("ln")))
+        # ... and never replaced once something was added to it (an assignment drops what the earlier rules found)
+        appended = False
+        for n in walk(body):
+            if n.get("k") == "mcall" and n.get("m") in ("extend", "push", "append", "extend_from_slice", "insert"):
+                rv = peel(n.get("recv"))
+                if isinstance(rv, dict) and rv.get("k") == "local" and rv.get("id") == acc:
+                    appended = True
+            if n.get("k") == "assign":
+                l_ = peel(n.get("l"))
+                if isinstance(l_, dict) and l_.get("k") == "local" and l_.get("id") == acc:
+                    S4_COUNT[0] += 1
+                    if appended:
+                        rep.add(Finding("S4", b["path"], "overwrite",
+                                        "%s assigns a new value to its accumulated error list after errors were "
+                                        "added to it: what the earlier rules found is lost in full mode (stop mode "
+                                        "has returned before), so the stop list is no longer a prefix of the full list"
+                                        % b["name"], b["file"], n.get("ln")))
         for n in walk(body):
             if n.get("k") == "ret":
                 e = peel(n.get("e")) if n.get("e") else None
